@@ -777,6 +777,18 @@ def check_site(ctx: RuleContext, r, site: Site):
             if not defs:
                 raise AnalysisError(f"{f.qualname}: snapshot `{a.id}` has no definition")
             for stn, val, idx in defs:
+                if idx is not None and site.tuple_var is not None and _copies_each_in_order(val, site.tuple_var):
+                    # `a_bak, b_bak, c_bak, d_bak = [memo.copy() for memo in memos]`: element idx is a fresh copy of slot idx
+                    if idx != i:
+                        ctx.bad("C04.3", f, rc, f"restore argument {i} is a snapshot of slot {idx}: the memos would be restored into the wrong slots")
+                        continue
+                    snodes = g.nodes_of_stmt(stn)
+                    need(snodes, f"{f.qualname}: snapshot statement not in CFG")
+                    if all(any(sn.id in dom[mn.id] for sn in snodes) for mn in mut_nodes):
+                        ctx.ok("C04.2", f.qualname, f"slot {i}: `{a.id}` is a fresh copy of element {idx} of `{site.tuple_var}` taken before the mutating call")
+                    else:
+                        ctx.bad("C04.2", f, stn, f"snapshot `{a.id}` is not taken on every path before the mutating call (it does not dominate it)")
+                    continue
                 if idx is not None or not c05._is_copy_of(val, set(live)):
                     if isinstance(val, ast.Name) and val.id in live:
                         ctx.bad("C04.2", f, stn, f"snapshot `{a.id}` is an alias of the live memo, not a copy: it changes together with it")
